@@ -89,7 +89,7 @@ def implicit_solves(rep, tier, timeout):
                         obs.append(oblig.Ob("%s %s row %d" % (mode, label, i), lhs=lhs, rhs=rhs, assume=hyp,
                                             meta={"family": "FEM.solve_linear solves the %s system for the matrix linearize reports" % ("forward" if mode == "fwd" else "transposed"),
                                                   "twin": twin}))
-                run_twin_aware(rep, "FEM solve_linear %s [%s]" % (mode, cn), obs, timeout)
+                run_twin_aware(rep, "FEM solve_linear %s [%s]" % (mode, cn), obs, timeout, replay=lambda ob, env, s=s, ch=ch, mode=mode: replay_fem_solve(s, ch, mode))
         # FEM(vec_size > 1) cannot be set up at all (OpenMDAO rejects its declared sparsity: "Expected 36x36 but declared
         # at least 174x174"), so the vec_size loop of solve_linear is unreachable and is not explored.
         # symmetric K is a premise of the reverse mode: re-stated here (proved in C10 too)
@@ -129,14 +129,78 @@ def implicit_solves(rep, tier, timeout):
                     lhs, rhs_ = sum((mtx[j, i] * S(d_res["circulations"][j]) for j in range(n)), ZERO), pre_out[i]
                 obs.append(oblig.Ob("%s row %d" % (mode, i), lhs=lhs, rhs=rhs_, assume=hyp,
                                     meta={"family": "SolveMatrix.solve_linear solves the %s system" % ("forward" if mode == "fwd" else "transposed")}))
-            run_obligations(rep, "SolveMatrix solve_linear %s [n=%d]" % (mode, n), obs, timeout, family=lambda ob: "SolveMatrix: " + ob.meta["family"])
+            run_obligations(rep, "SolveMatrix solve_linear %s [n=%d]" % (mode, n), obs, timeout, family=lambda ob: "SolveMatrix: " + ob.meta["family"],
+                            replay=lambda ob, env, ss=ss, mode=mode: replay_sm_solve(ss, mode))
 
 
-def run_twin_aware(rep, group, obs, timeout):
+def replay_fem_solve(s, ch, mode):
+    """the real FEM component on floats: factorise a real stiffness matrix with its own solve_nonlinear, then call its
+    solve_linear on vectors that hold arbitrary previous contents (what an iterative linear solver leaves there) and test
+    the linear system it is meant to solve"""
+    import openmdao.api as om
+    from openaerostruct.structures.fem import FEM
+
+    ny = s["mesh"].shape[1]
+    rng = np.random.default_rng(7)
+    nodes = np.stack([0.3 * np.arange(ny), -1.0 * np.arange(ny)[::-1] - 0.0, 0.1 * np.arange(ny)], axis=1).astype(float)
+    A, Iy, Iz, J = (1e-3 * (1.0 + rng.random(ny - 1)), 1e-6 * (1.0 + rng.random(ny - 1)), 2e-6 * (1.0 + rng.random(ny - 1)), 3e-6 * (1.0 + rng.random(ny - 1)))
+    prob = om.Problem(reports=False)
+    from openaerostruct.structures.assemble_k_group import AssembleKGroup
+    prob.model.add_subsystem("k", AssembleKGroup(surface=s), promotes=["*"])
+    prob.model.add_subsystem("fem", FEM(surface=s), promotes=["*"])
+    prob.setup()
+    prob.set_val("nodes", nodes)
+    for n_, v in (("A", A), ("Iy", Iy), ("Iz", Iz), ("J", J)):
+        prob.set_val(n_, v)
+    prob.run_model()
+    comp = prob.model.fem
+    kt = np.array(prob.get_val("local_stiff_transformed"))
+    Kn = np.asarray(comp.assemble_CSC_K({"local_stiff_transformed": kt}).toarray())
+    n = Kn.shape[0]
+    d_out = {"disp_aug": rng.standard_normal(n)}
+    d_res = {"disp_aug": rng.standard_normal(n) * 1e3}
+    pre_out, pre_res = d_out["disp_aug"].copy(), d_res["disp_aug"].copy()
+    comp.solve_linear(d_out, d_res, mode)
+    if mode == "fwd":
+        lhs, rhs = Kn.dot(d_out["disp_aug"]), pre_res
+    else:
+        lhs, rhs = Kn.T.dot(d_res["disp_aug"]), pre_out
+    err = float(np.abs(lhs - rhs).max() / max(1e-30, np.abs(rhs).max()))
+    return err > 1e-6, "real FEM.solve_linear(%s) with non-zero previous vector contents: |K%s x - b| / |b| = %.3g" % (mode, "" if mode == "fwd" else "^T", err)
+
+
+def replay_sm_solve(ss, mode):
+    import openmdao.api as om
+    from openaerostruct.aerodynamics.solve_matrix import SolveMatrix
+
+    prob = om.Problem(reports=False)
+    prob.model.add_subsystem("sm", SolveMatrix(surfaces=ss), promotes=["*"])
+    prob.setup()
+    comp = prob.model.sm
+    n = comp.system_size
+    rng = np.random.default_rng(11)
+    M = rng.standard_normal((n, n)) + n * np.eye(n)
+    prob.set_val("mtx", M)
+    prob.set_val("rhs", rng.standard_normal(n))
+    prob.run_model()
+    prob.model.run_linearize()
+    d_out = {"circulations": rng.standard_normal(n)}
+    d_res = {"circulations": rng.standard_normal(n)}
+    pre_out, pre_res = d_out["circulations"].copy(), d_res["circulations"].copy()
+    comp.solve_linear(d_out, d_res, mode)
+    if mode == "fwd":
+        lhs, rhs = M.dot(d_out["circulations"]), pre_res
+    else:
+        lhs, rhs = M.T.dot(d_res["circulations"]), pre_out
+    err = float(np.abs(lhs - rhs).max() / max(1e-30, np.abs(rhs).max()))
+    return err > 1e-8, "real SolveMatrix.solve_linear(%s) with non-zero previous vector contents: |A%s x - b| / |b| = %.3g" % (mode, "" if mode == "fwd" else "^T", err)
+
+
+def run_twin_aware(rep, group, obs, timeout, replay=None):
     """obligations flagged `twin` are reachability twins: they must come back sat (the check can see the mechanism)."""
     real = [o for o in obs if not o.meta.get("twin")]
     twins = [o for o in obs if o.meta.get("twin")]
-    run_obligations(rep, group, real, timeout, family=lambda ob: "FEM: " + ob.meta["family"])
+    run_obligations(rep, group, real, timeout, family=lambda ob: "FEM: " + ob.meta["family"], replay=replay)
     if twins:
         oblig.discharge(twins, timeout=timeout, levels=(1,))
         nsat = sum(1 for o in twins if o.verdict == "candidate")
@@ -157,7 +221,8 @@ def matrix_free(rep, tier, timeout):
         return
     from symoas import diff
 
-    ss = [K.surface(2, 2, True, name="wing"), K.surface(2, 3, False, name="tail")]
+    # three surfaces of pairwise different sizes: running offsets into the flattened vector differ from any single size
+    ss = [K.surface(2, 2, True, name="wing"), K.surface(2, 3, False, name="tail"), K.surface(3, 2, True, name="fin")]
     for cls, mod in (("DemuxSurfaceMesh", "mphys.demux_surface_mesh"), ("MuxSurfaceForces", "mphys.mux_surface_forces")):
         sc = SymComp(mod, cls, surfaces=ss)
         rep.encode(type(sc.comp))
